@@ -961,7 +961,7 @@ func (g *gen) attackPH(h uint64, r uint32, cr uint32) (tmconsensus.ProposedHeade
 		pset := g.w.set(h - 1)
 		var bad tmconsensus.CommitProof
 		var desc string
-		sub := g.pick(8)
+		sub := g.pick(9)
 		if !ok && sub != 2 && sub != 3 {
 			// junk parent: validators of h-1 sign it only as a <1/3 minority (see parentQuorum)
 			sub = -1
@@ -996,6 +996,15 @@ func (g *gen) attackPH(h uint64, r uint32, cr uint32) (tmconsensus.ProposedHeade
 			sigs := bad.Proofs[string(parent)]
 			sigs[g.pick(len(sigs))].KeyID = [][]byte{nil, {1}, {0, 0, 0}}[g.pick(3)]
 			desc = "prevcommit-short-keyid"
+		case 8:
+			// the validator hash of the proof left empty (for a header of the committing
+			// height the mirror has no previous validator set at hand, whose hash is empty too)
+			bad = g.w.commitProofFor(h-1, cr, string(parent), parentQuorum(), nil)
+			bad.PubKeyHash = ""
+			if g.pick(3) == 0 {
+				bad.Proofs = map[string][]gcrypto.SparseSignature{}
+			}
+			desc = "prevcommit-empty-pubkeyhash"
 		case 5:
 			bad = g.w.commitProofFor(h-1, cr+1, string(parent), parentQuorum(), nil)
 			desc = "prevcommit-other-round-valid"
